@@ -20,8 +20,10 @@ RULE = ('hosts = {real Linux interpreter, Darwin-shaped tables, scrambled tables
         'logs of a v3 dump; non-trivial = rendering compared across the three hosts and (for names) with the Darwin '
         'reference; distinct = distinct (section, case)')
 QUICK_SHARDS = 1
+NO_OPTIMIZED_FLAVOUR = True      # the hosts are subprocesses of their own; the -O / -OO interpreters are among them
 THOROUGH_SHARDS = 1
-HOSTS = ('real', 'darwin', 'scrambled', 'bsdlike', 'real-hashseed-1', 'real-hashseed-4711', 'real-ascii-console')
+HOSTS = ('real', 'darwin', 'scrambled', 'bsdlike', 'windowslike', 'real-hashseed-1', 'real-hashseed-4711', 'real-ascii-console',
+         'real-python-O', 'real-python-OO')
 
 
 def run_host(host, seed):
@@ -41,7 +43,12 @@ def run_host(host, seed):
         # follow what the terminal can display
         env.update({'PYTHONIOENCODING': 'ascii', 'LC_ALL': 'POSIX', 'LANG': 'POSIX', 'PYTHONUTF8': '0', 'PYTHONCOERCECLOCALE': '0'})
         host = 'real'
-    p = subprocess.run([sys.executable, '-m', 'vlib.hostswap', host, str(seed)], env=env, capture_output=True,
+    flags = []
+    if host.startswith('real-python-'):
+        # how the interpreter was started is part of the machine: -O compiles asserts away, -OO strips docstrings too
+        flags = [host.rsplit('-', 1)[1].join(('-', ''))]
+        host = 'real'
+    p = subprocess.run([sys.executable] + flags + ['-m', 'vlib.hostswap', host, str(seed)], env=env, capture_output=True,
                        text=True, timeout=600)
     if p.returncode != 0:
         raise core.Inconclusive(f'host {host} workload failed: {p.stderr[-600:]}')
